@@ -49,6 +49,7 @@ type QCfg struct {
 	PartState     map[int]int `json:"part_state,omitempty"`
 	PreFinal      map[int]int `json:"pre_final,omitempty"` // garbage already at the final path
 	RefName       string      `json:"ref_name,omitempty"`
+	OfferHeaders  bool        `json:"offer_extra_action_headers,omitempty"`
 }
 
 // Delivery is one Transfer received on a Watch() channel.
@@ -300,6 +301,7 @@ func RunQueue(rc *RunCtx, cfg QCfg) *QRun {
 	w.Net.DropBefore = cfg.DropBefore
 	w.Net.DropAfter = cfg.DropAfter
 	w.Srv.ExpiresInS = cfg.ExpiresInS
+	w.Srv.OfferExtraHeaders = cfg.OfferHeaders
 	qr := &QRun{Cfg: cfg, W: w, Paths: map[string]string{}, Pre: map[string][]byte{}}
 	// objects
 	qr.Objs = make([]*Obj, len(cfg.Sizes))
